@@ -82,6 +82,49 @@ def cache_states(cache, rnd):
     yield 'entry_bytes_swapped', lambda: len(files) > 1 and (lambda a, b: (files[0].write_bytes(b), files[1].write_bytes(a)))(files[0].read_bytes(), files[1].read_bytes())
 
 
+KILLER = r"""
+import sys, os, asyncio, json
+sys.path.insert(0, {repo!r})
+sys.path.insert(0, {here!r})
+import lib
+from replicat.repository import Repository
+from replicat.backends.local import Local
+cache, k = {cache!r}, {k}
+count = [0]
+def hook(event, args):
+    # file-system MUTATIONS under the cache directory: the process dies just BEFORE the k-th of them
+    hit = False
+    if event == 'open' and isinstance(args[0], (str, bytes, os.PathLike)) and str(os.fspath(args[0])).startswith(cache):
+        mode, flags = args[1], args[2]
+        hit = bool(flags & (os.O_WRONLY | os.O_RDWR | os.O_CREAT | os.O_TRUNC | os.O_APPEND)) or (isinstance(mode, str) and any(c in mode for c in 'wax+'))
+    elif event in ('os.rename', 'os.remove', 'os.mkdir', 'os.truncate', 'os.link', 'os.symlink') and any(str(a).startswith(cache) for a in args if isinstance(a, (str, bytes, os.PathLike))):
+        hit = True
+    if hit:
+        count[0] += 1
+        if count[0] == k:
+            os._exit(9)
+sys.addaudithook(hook)
+async def go():
+    r = Repository(Local({repo_dir!r}), concurrent=1, quiet=True, cache_directory={cache!r})
+    with lib.quiet():
+        await r.unlock(password={pw!r}, key={key!r})
+        await r.list_snapshots()
+    await r.close()
+asyncio.run(go())
+os._exit(0)
+"""
+
+
+def killed_while_writing_the_cache(d, pw, key, cache, k):
+    """a client with a cold cache lists the snapshots and is killed just before its k-th file-system mutation under the cache directory
+    (creating a directory, opening an entry or a temporary for writing, renaming, removing ...).  -> exit status of the child"""
+    import subprocess
+    rr = Repository(Local(d / 'repo'), concurrent=1, quiet=True, cache_directory=None)
+    code = KILLER.format(repo=lib.REPO, here=os.path.dirname(os.path.abspath(__file__)), cache=str(cache), k=k, repo_dir=str(d / 'repo'), pw=pw,
+                         key=rr.serialize(key) if key else None)
+    return subprocess.run([sys.executable, '-c', code], capture_output=True, timeout=120).returncode
+
+
 def main():
     payload = lib.read_payload()
     tier, seed = payload.get('tier', 'quick'), int(payload.get('seed', 0))
@@ -121,6 +164,21 @@ def main():
                         failures.append({'id': f'cache{cases}b', 'class': None, 'case': dict(case, second_run=True), 'detail': {'problem': 'second run on the same cache differs'}})
                     if len(samples) < 3:
                         samples.append(case)
+                # a client KILLED while it fills a cold cache (every point just before one of its file-system mutations there): whatever it
+                # leaves behind, later clients using that directory behave like cache-less ones
+                if (pw, key) == keys[0]:
+                    for k in range(1, 9):
+                        cases += 1
+                        kc = root / f'cache_killed_{k}'
+                        status = killed_while_writing_the_cache(d, pw, key, kc, k)
+                        for run in (1, 2):
+                            gotk = asyncio.run(observe(d, pw, key, kc, f'k{k}_{run}'))
+                            if gotk != reference:
+                                failures.append({'id': f'killed{k}_{run}', 'class': None, 'case': {'encrypted': encrypted, 'cache_state': f'left by a client killed before its mutation #{k} of the cache', 'run_after': run},
+                                                 'detail': {'problem': 'result differs from the cache-less run', 'with_cache': str(gotk)[:200]}})
+                                break
+                        if status == 0:
+                            break          # the client finished: no further crash points
                 # stale cache: another client deletes a snapshot, then we list with the old warm cache
                 cases += 1
                 r = Repository(Local(d / 'repo'), concurrent=2, quiet=True, cache_directory=None)
